@@ -549,8 +549,58 @@ def dict_order_and_dotted_override_stream(ctx, res):
                         dict(case, before=tree0, after=cfg.to_tree(), marks_before=marks0, marks_after=marks1))
 
 
+def refused_write_hook_stream(ctx, res):
+    """a field whose documented write hook `__setval__` refuses a value the validation accepted (a locked section, a write-once field):
+    the assignment is rejected and the configuration is as before — value, tree AND user-defined status — at the root, nested, fresh
+    and after a reset; the same field accepts the value when it is not locked"""
+    import ext
+    import cincoconfig as cc
+    X = ext.ns()
+    L = X["LockedField"]
+    for where in ("root", "nested"):
+        for history in ("fresh", "after-reset", "after-accepted"):
+            for route in ("attr", "dotted", "load_tree"):
+                s = cc.Schema()
+                h = s if where == "root" else s.site.inner
+                h.title = L(default="nobody")
+                h.other = cc.IntField(default=1)
+                path = "title" if where == "root" else "site.inner.title"
+                cfg = s()
+                L.locked = False
+                try:
+                    if history == "after-reset":
+                        cfg[path] = "someone"
+                        cc.reset_value(cfg, path)
+                    elif history == "after-accepted":
+                        cfg[path] = "someone"
+                    before = (cfg.to_tree(), cc.is_value_defined(cfg, path), cc.is_value_defined(cfg, path.replace("title", "other")))
+                    L.locked = True
+                    try:
+                        if route == "attr":
+                            owner = cfg if where == "root" else cfg.site.inner
+                            owner.title = "intruder"
+                        elif route == "dotted":
+                            cfg[path] = "intruder"
+                        else:
+                            tree = {"title": "intruder"} if where == "root" else {"site": {"inner": {"title": "intruder"}}}
+                            cfg.load_tree(tree)
+                        raised = False
+                    except Exception:  # noqa
+                        raised = True
+                finally:
+                    L.locked = False
+                after = (cfg.to_tree(), cc.is_value_defined(cfg, path), cc.is_value_defined(cfg, path.replace("title", "other")))
+                case = {"stream": "refused-write-hook", "where": where, "history": history, "route": route}
+                res.case(stable(case) if raised else None, kind="refused-write-hook:" + ("rejected" if raised else "accepted"))
+                if not raised:
+                    res.violate("C06:write-hook-ignored", "a value the field's write hook __setval__ refuses was stored", case)
+                elif route != "load_tree" and after != before:
+                    res.violate("C06:write-hook-changed-state", "an assignment refused by the field's write hook __setval__ changed the configuration (value, tree or user-defined status)",
+                                dict(case, before=repr(before)[:200], after=repr(after)[:200]))
+
 def run(ctx, n_quick=200, n_thorough=6000):
     res = Result()
+    guard(res, "C06", refused_write_hook_stream, ctx, res)
     guard(res, "C06", lambda: P.run_stream(ctx, res, "C06", ctx.n(n_quick, n_thorough), oracle, gen_ops=gen_ops))
     guard(res, "C06", proxy_stream, ctx, res, ctx.n(60, 2000))
     guard(res, "C06", container_validator_stream, ctx, res, ctx.n(40, 1500))
